@@ -16,12 +16,13 @@ var c03OptSets = []flags.Options{
 }
 
 func c03Cfg(opts flags.Options) *DeclCfg {
-	types := []TypeSpec{{K: KString}, {K: KBool}, {K: KBool}, {K: KInt}, {K: KString, W: WSlice}, {K: KBool, W: WSlice}, {K: KString, W: WMap, MapKey: KString}, {K: KFloat64}, {W: WFunc0}, {K: KString, W: WFunc1}}
+	types := []TypeSpec{{K: KString}, {K: KBool}, {K: KBool}, {K: KInt}, {K: KString, W: WSlice}, {K: KBool, W: WSlice}, {K: KString, W: WMap, MapKey: KString}, {K: KFloat64}, {W: WFunc0}, {K: KString, W: WFunc1}, {K: KBool, W: WSlicePtr}, {K: KBool, W: WPtr}, {K: KOnOff}}
 	return &DeclCfg{
 		MaxDepth: 2, MaxFan: 3, PCmds: 55, Types: types, OptsMin: 1, OptsMax: 4, SubGroupsMax: 1, NestMax: 1,
 		PNamespace: 30, PShortOnly: 15, PLongOnly: 15, PClash: 10, POptional: 10,
 		PPos: 55, PosMax: 3, PRest: 45, PExec: 60, PByTag: 40, PSubOptional: 50, PAliases: 30,
-		ParserOpts: []flags.Options{opts}, PosTypes: []TypeSpec{{K: KString}, {K: KString}, {K: KString}, {K: KInt}},
+		ParserOpts: []flags.Options{opts}, PosTypes: []TypeSpec{{K: KString}, {K: KString}, {K: KString}, {K: KInt}, {K: KString, W: WMap, MapKey: KString}},
+		PNamedRest: 30, PPosSplit: 20,
 	}
 }
 
@@ -183,6 +184,17 @@ func c03Hostiles(c *Ctx, d *Decl, b *Built) {
 		}
 		for _, a := range cm.Pos.Args {
 			if a.T.K != KString || !a.Val.IsValid() {
+				continue
+			}
+			if a.T.W == WMap {
+				it := a.Val.MapRange()
+				for it.Next() {
+					// (a token without a colon is read as a key with an empty value)
+					if e := it.Key().String() + ":" + it.Value().String(); !tokset[e] && !(it.Value().String() == "" && tokset[it.Key().String()]) {
+						c.Violate("hostile:positional-invented", "map positional %s holds the entry %q which is not an input token", a.DisplayName(), e)
+						return
+					}
+				}
 				continue
 			}
 			if a.IsRest() {
